@@ -36,6 +36,7 @@ def dispatch (j : Json) : Json :=
   | "dev.run" => Driver.handleDevRun j
   | "lint.analyze" => Driver.handleLintAnalyze j
   | "diff.schema" => Driver.handleDiffSchema j
+  | "diff.objects" => Driver.handleDiffObjects j
   | "hcltype.convert" => Driver.handleHclTypeConvert j
   | "plan.shape" => Driver.handlePlanShape j
   | "copy.plan" => Driver.handleCopyPlan j
